@@ -342,7 +342,7 @@ def run(chk):
             g = Graph(os.path.join(work, "edges-%s.ndjson" % gname))
             walks, left = g.cover(random.Random(chk.seed * 7919 + 1), max_att=12)
             long_walks, _ = g.cover(random.Random(chk.seed * 7919 + 2), max_att=60)
-            nrand = 4 if quick else 40
+            nrand = 4 if quick else 30
             rwalks = [g.random_walk(rng, 25 if quick else 40) for _ in range(nrand)]
             gen_note[gname] = {"states": len(g.sid), "edges": len(g.edges), "edges_not_covered": left,
                                "cover_walks": len(walks), "random_walks": len(rwalks)}
@@ -372,7 +372,7 @@ def run(chk):
             # the primary instantiation (rotates with the seed) replays the complete edge cover,
             # the others a seeded sample of it; every instantiation gets the random walks
             primary = (chk.seed + gi) % len(INST[gname])
-            frac = 5 if quick else 3
+            frac = 5 if quick else 4
             for ii, (iname, mapping) in enumerate(INST[gname]):
                 ws = long_walks if iname in SLOW else walks
                 if ii != primary:
